@@ -516,7 +516,8 @@ Fixpoint caching_func (fuel : nat) (c : mcfg) (st : mstate) (q : req) (override_
           let k' := if vary_by_origin dirs && k_opaque k
                     then match find has_full_origin keys with Some fk => fk | None => k end else k in
           let name' := fs_name (mc_hash c) k' in
-          if should_skip then
+          (* statuses the storage never keeps are relayed directly, like should_skip requests *)
+          if should_skip || negb (is_cacheable_status (rs_status rp)) then
             match inner_cl with
             | Some icl => mkCf st4 icl log4
             | None => mkCf st4 (relay (with_status always3 s_pass)) log4
